@@ -153,6 +153,39 @@ Section Proofs.
   Qed.
 End Proofs.
 
+(* the handler as cmd/kddp wires it: whatever file a diagnostic names, if its range lies in the text of
+   THAT file the handler created for the main file prints it - because it only indexes its own text
+   when the cleaned names coincide (and names that clean to the same path name the same text) *)
+Section HandlerProofs.
+  Variable path : Type.
+  Variable path_eqb : path -> path -> bool.
+  Variable clean : path -> path.
+  Variable text_of : path -> list N.
+  Variable slack : N -> N.
+  Hypothesis path_eqb_eq : forall a b, path_eqb a b = true -> a = b.
+  Hypothesis text_clean : forall p, text_of (clean p) = text_of p.
+
+  Lemma handler_total : forall file errfile r,
+    wf_range r -> wf_lines slack (text_of errfile) -> in_text (text_of errfile) r ->
+    handler_ok path path_eqb clean text_of slack file errfile r = true.
+  Proof.
+    intros file errfile r W WL IT. unfold handler_ok. rewrite render_ok_fast_eq.
+    destruct (handled path path_eqb clean (clean file) errfile) eqn:H; [|reflexivity].
+    unfold handled in H. apply path_eqb_eq in H.
+    assert (E : text_of file = text_of errfile).
+    { rewrite <- (text_clean file), <- H. apply text_clean. }
+    rewrite E. apply render_total_if_in_text; assumption.
+  Qed.
+
+  Lemma unhandled_header_only : forall file errfile r,
+    handled path path_eqb clean (clean file) errfile = false ->
+    handler_ok path path_eqb clean text_of slack file errfile r = true /\
+    shown_lines path path_eqb clean file errfile r = 0.
+  Proof.
+    intros file errfile r H. unfold handler_ok, shown_lines. rewrite H. split; reflexivity.
+  Qed.
+End HandlerProofs.
+
 (* without excess capacity the renderer is total exactly on the ranges inside the text *)
 Lemma render_total_iff_in_text : forall lines r,
   wf_range r -> wf_lines (fun _ => 0) lines -> 1 <= sl r -> sl r <= el r ->
